@@ -531,7 +531,9 @@ func genDataCoreBit(rng *rand.Rand, tier string, emit func(string)) {
 					o := strconv.FormatInt(off(k), 10)
 					note(k, o)
 					a = h("setbit", k, o, "0") // clearing bits, also on missing keys / segments
-					chk = o + " 0"
+					if ov, err := strconv.ParseInt(o, 10, 64); err == nil && ov <= 16777216 { // the leader refuses larger offsets: nothing is applied then
+						chk = o + " 0"
+					}
 				}
 				emit(fmt.Sprintf("%s %d %s%s", op, ts, b, a))
 				pending = b == "0"
